@@ -77,6 +77,13 @@ type schedEnv struct {
 	tag   *engine.Stag
 }
 
+// gatesForProbe returns the Gates object the injected gate function is bound to, reset so
+// that new Hold gates work after an earlier ReleaseAll.
+func (e *schedEnv) gatesForProbe() *obs.Gates {
+	e.gates.Reopen()
+	return e.gates
+}
+
 func newSchedEnv() *schedEnv {
 	l := &obs.Log{}
 	return &schedEnv{log: l, gates: obs.NewGates(l), tag: &engine.Stag{}}
